@@ -340,7 +340,7 @@ def run(ctx):
     ctx.trusted_base = ['clang 14 (front end, -O0 IR generation, code generation with the Makefile flags)', 'opt-14 mem2reg',
                         'llvm-nm-14 / llvm-objdump-14', 'jpir root classifier', 'jpfacts + jpv escape rule']
     ctx.assumptions = ['the caller-supplied randomness/hash callbacks are themselves re-entrant',
-                       'ARMv6-M assembly cannot be assembled here: its exported/branched-to symbols are read from the source directives, its bodies are not analysed',
+                       'ARMv6-M assembly: exported / branched-to symbols are read from the source directives; the bodies are interpreted by R-WORDALG (C02/C03) and touch only their arguments and their own frame',
                        'objects are built with clang (the Makefile default); arm-none-eabi-g++ code generation may reference different libgcc helpers']
     cfgs = ctx.configs()
     progs = ctx.programs(cfgs)
